@@ -522,6 +522,8 @@ def write_evidence(path, tier, seed, agg, wall, nviol, vs, nplan):
                        "stub": []},
         "deadline_hit": agg["deadline_hit"],
         "harness_errors": agg["harness_errors"][:5],
+        "runs_lost_to_harness_errors": sum(1 for e in agg["harness_errors"]
+                                           if e.startswith("run ")),
     }
     ev = {
         "property_id": "C20", "tier": tier, "seed": int(seed), "level": "exploration",
@@ -574,8 +576,20 @@ def main(argv):
              cov["distinct_nontrivial"], cov["distinct_interleavings"], wall))
     for ln in lines:
         print(ln)
-    if agg["harness_errors"]:
-        for e in agg["harness_errors"][:10]:
+    # a failure of the machinery in a single run (e.g. a child killed by the wall
+    # timeout on an overloaded machine) means that run explored nothing; it is
+    # reported, and tolerated while it stays isolated.  Anything systemic - a worker
+    # that died, a determinism mismatch, more than a handful of failed runs - makes
+    # the check itself unreliable: exit 2, never 0.
+    run_level = [e for e in agg["harness_errors"] if e.startswith("run ")]
+    systemic = [e for e in agg["harness_errors"] if not e.startswith("run ")]
+    if len(run_level) > max(3, agg["runs"] // 200):
+        systemic += run_level
+        run_level = []
+    for e in run_level:
+        print("HARNESS-NOTE (run not counted) %s" % e[:600].replace("\n", " | "))
+    if systemic:
+        for e in systemic[:10]:
             print("HARNESS-ERROR %s" % e[:1500])
         if nviol:
             return 1
